@@ -536,6 +536,8 @@ class PredEval:
             a = args[0] if args else None
             if not isinstance(a, TypeArg):
                 return None
+            if a.cls in ("collections.abc.Callable", "typing.Callable"):
+                return TypeArg("typing.Callable")  # documented: every Callable form normalises to typing.Callable
             base = TypeArg(a.cls)  # get_origin of a subscripted generic is its class
             mapped = self.generic_map().get(a.cls)
             if mapped is None:
